@@ -203,6 +203,7 @@ class Inliner:
         self._views: Dict[int, FuncInfo] = {}
         self._counter = 0
         self.log: List[str] = []
+        self.inlined: Dict[int, Set[str]] = {}   # id(helper node) -> qualnames of the functions it was inlined into
 
     # ------------------------------------------------------------------ which callee may be inlined
     def _target(self, func: FuncInfo, call: ast.Call, stack: Tuple[int, ...]) -> Optional[FuncInfo]:
@@ -326,6 +327,7 @@ class Inliner:
         for s in out:
             ast.fix_missing_locations(s)
         self.log.append(f'{func.qualname}: inlined {g.qualname} ({mode})')
+        self.inlined.setdefault(id(g.node), set()).add(func.qualname)
         # recurse into the inlined helper's own helper calls (it was resolved in g's scope: use g for resolution)
         return self._process_block(g, out, caller_names | _assigned_names(out), stack + (id(g.node),)) if len(stack) < MAX_DEPTH else out
 
